@@ -237,6 +237,12 @@ func (c *Ctx) normalize(overlay map[string][]byte) (map[string][]byte, []string)
 	if !changed {
 		return nil, log
 	}
+	if d := os.Getenv("VERIF_DUMP_NORMALISED"); d != "" {
+		// debugging aid: the normalised source of every rewritten file
+		for k, v := range cur {
+			os.WriteFile(d+"/"+strings.ReplaceAll(strings.TrimPrefix(k, "/"), "/", "_"), v, 0o644)
+		}
+	}
 	return cur, log
 }
 
